@@ -14,7 +14,7 @@ import tempfile
 
 from harness import common, par
 
-FAMILIES = ['cycle', 'chain', 'alt', 'noloc', 'badloc', 'e500', 'e401', 'reset', 'selfredirect', 'auth401']
+FAMILIES = ['cycle', 'chain', 'alt', 'noloc', 'badloc', 'emptyloc', 'e500', 'e401', 'reset', 'selfredirect', 'auth401']
 DEAD_PORT = 9
 
 # connection attempts to a port nobody listens on cannot be seen by a server: they are counted through the interpreter's
@@ -89,6 +89,9 @@ def make_handler(case):
             return {'status': code, 'reason': 'R', 'headers': [('Location', t)], 'body': b''}
         if fam == 'noloc':
             return {'status': code, 'reason': 'R', 'headers': [], 'body': b''}
+        if fam == 'emptyloc':
+            # a Location field that is present but empty / blank
+            return {'status': code, 'reason': 'R', 'headers': [('Location', ['', ' ', '\t'][n % 3])], 'body': b''}
         if fam == 'badloc':
             return {'status': code, 'reason': 'R', 'headers': [('Location', 'http://[::bad/%%')], 'body': b''}
         if fam == 'e500':
@@ -175,7 +178,7 @@ def run_case(case, part):
         per_visit = 1
         if fam in ('cycle', 'chain', 'alt', 'selfredirect'):
             per_visit = maxr + 1
-        if fam in ('noloc', 'badloc'):
+        if fam in ('noloc', 'badloc', 'emptyloc'):
             per_visit = 1
         auth_extra = 1 if case['with_login'] and fam in ('e401', 'auth401') else 0
         bound = tries * (per_visit + auth_extra)
